@@ -31,6 +31,10 @@ struct ShadowHost : ModelHost {
 	World *w = nullptr;
 	World::Cand *cur = nullptr;
 	void expect(int c, const Exp &e) override {
+		if (cur && e.kind == Exp::RESP && (e.id.t == JV::Str || e.id.t == JV::Num) && (e.why == "authenticate ok" || e.why == "failed authentication")) {
+			char b[48]; if (e.id.t == JV::Num) snprintf(b, sizeof b, "n%.15g", e.id.d);
+			cur->auth[std::to_string(c) + "|" + (e.id.t == JV::Str ? "s" + e.id.s : std::string(b))] = e.why == "authenticate ok" ? 1 : 0;
+		}
 		if (!cur || e.kind != Exp::NOTIFY) return;
 		if (cur->entitled.size() > 600) { cur->entitled_overflow = true; return; }
 		World::Entitled x; x.c = c; x.fetchid = e.fetchid; x.event = e.event; x.path = e.path; x.check_value = e.check_value; x.vhash = e.check_value ? jv_hash(e.value) : 0;
@@ -144,6 +148,10 @@ void World::shadow_apply(std::vector<Cand> &cs, const Input &in, bool fork) {
 				if (it != shadow_gets.end()) it->second.ambiguous = true; else shadow_gets[key] = g;
 			}
 		}
+		if (!fork && json_parse(text, j) && j.t == JV::Obj && j.gets("method") == "authenticate") {
+			const JV *id = j.get("id");
+			if (id && (id->t == JV::Str || id->t == JV::Num)) { std::string k = std::to_string(in.c) + "|" + idkey2(*id); if (shadow_auth_seen.count(k)) shadow_auth_seen[k] = (uint64_t)-1; else shadow_auth_seen[k] = faults_fired; }
+		}
 		if (!fork) { for (auto &c : cs) if (c.alive) { g_shadow_host.cur = &c; c.m.on_message(in.c, text); } g_shadow_host.cur = nullptr; }
 		else {
 			std::vector<Cand> next; std::vector<int> parent; std::map<std::string, size_t> seen;
@@ -227,6 +235,34 @@ void World::shadow_check_get(Client &cl, const Frame &f) {
 		if (!ok) cands[i].alive = false;
 	}
 	if (alive_after < alive_before) probe("shadow_alternative_discarded");
+}
+
+// Credentials after a failed allocation: a password change that was in progress was either carried out or not. Every later authenticate request
+// (consumed and answered without a further failure in between) must be answered the way at least one alternative of the reference model answers it.
+void World::shadow_check_auth(Client &cl, const Frame &f) {
+	if (!shadow_active || shadow_undecidable) return;
+	if (f.t != Frame::JSON || f.j.t != JV::Obj) return;
+	const JV *id = f.j.get("id");
+	if (!id || (id->t != JV::Str && id->t != JV::Num)) return;
+	std::string k = std::to_string(cl.idx) + "|" + idkey2(*id);
+	auto it = shadow_auth_seen.find(k);
+	if (it == shadow_auth_seen.end()) return;
+	uint64_t at = it->second; shadow_auth_seen.erase(it);
+	if (at == (uint64_t)-1) return;                          // the id was used twice
+	bool ok = f.j.has("result") && !f.j.has("error");
+	if (at != faults_fired) return;                          // a further allocation failed since the request was consumed: its own outcome is open
+	size_t before = 0, after = 0;
+	for (auto &cd : cands) { if (!cd.alive) continue; before++; auto a = cd.auth.find(k); if (a == cd.auth.end() || a->second == (ok ? 1 : 0)) after++; }
+	probe("shadow_auth_checked");
+	if (!before) return;
+	if (!after) {
+		violation(plan.hdr.gets("shadowprop", "C04"), "credentials-not-explained-after-failed-allocation",
+			"after a failed allocation connection c" + std::to_string(cl.idx) + " got " + frame_text(f).substr(0, 300) + " for its authenticate request; neither carrying out nor skipping the password change (or authentication) "
+			"that was in progress when the allocation failed explains that answer together with the earlier ones: the stored credentials are neither the old nor the new ones");
+		return;
+	}
+	for (auto &cd : cands) { if (!cd.alive) continue; auto a = cd.auth.find(k); if (a != cd.auth.end() && a->second != (ok ? 1 : 0)) cd.alive = false; }
+	if (after < before) probe("shadow_alternative_discarded");
 }
 
 bool World::shadow_send_probe() {
